@@ -6,6 +6,10 @@ from props import sierra_runtime as rt
 
 def run(ctx):
     r = sc.run_common(ctx, "C17.v", ["C17_ap_exact"])
+    # Coq side of the libfunc-level premise branch_dyn: path theorems over the wrapper set and over the freshly
+    # compiled examples / bug samples / zoo (props/h03common.py; evidence key libfunc_path_theorems)
+    from props import h03common as hc
+    hc.path_theorems(ctx, ctx.out + "/corpus")
     apf = [f for f in r["static_failures"] if f["why"].startswith(("libfunc_ap_ok", "layout"))]
     for f in apf[:5]:
         # concrete statement whose emitted CASM moves ap differently from its declared ApChange::Known,
